@@ -1201,6 +1201,10 @@ func (ex *Exec) step(st *State, fr *Frame, instr ssa.Instruction) bool {
 			return false
 		}
 		f := fnv.(FuncV)
+		if _, red := ex.cfg.Redirect[f.Fn.String()]; red {
+			// `go f(...)` with f replaced by a harness recorder: run the recorder synchronously
+			return ex.callValue(st, fnv, args, nil, pos)
+		}
 		if ex.cfg.goSkip(f.Fn.String()) || (f.Fn.Parent() != nil && ex.cfg.goSkip(f.Fn.Parent().String()+"$anon")) {
 			ex.intr["GOSKIP:"+f.Fn.String()] = true
 			return true
@@ -2030,6 +2034,9 @@ func (ex *Exec) callTarget(st *State, c *ssa.CallCommon) (Value, []Value) {
 			for _, a := range c.Args {
 				args = append(args, ex.get(st, a))
 			}
+			if ov.Kind == "ctxlive" {
+				return OpaqueV{"livectx:" + c.Method.Name(), 0}, args
+			}
 			if ov.Kind == "sha1digest" {
 				return OpaqueV{"sha1:" + c.Method.Name(), ov.Ref}, args
 			}
@@ -2078,6 +2085,16 @@ func (ex *Exec) callValue(st *State, fv Value, args []Value, in *ssa.Call, pos t
 				o.top().env[in] = errVal("context.Canceled")
 				ex.work = append(ex.work, o)
 				setRes(nilErr)
+			}
+			return true
+		case "livectx:Err": // a context that is never cancelled
+			if in != nil {
+				setRes(nilErr)
+			}
+			return true
+		case "livectx:Done":
+			if in != nil {
+				setRes(ChanV{})
 			}
 			return true
 		case "invoke:Done":
